@@ -10,16 +10,16 @@
 (* a pipeline is applied to the WHOLE table at once, the way one would do  *)
 (* it with plain lists and dicts:                                          *)
 (*                                                                         *)
-(*   DoHead      HeadRows.filter      rows.py 221-239 (HeadDense 177-191,  *)
-(*                                    HeadSparse 193-219)                  *)
-(*   DoEncode    EncodeRows.filter    rows.py 284-312 (EncodeDense 241-255,*)
-(*                                    EncodeSparse 257-282)                *)
-(*   DoDrop      DropRows.filter      rows.py 377-433 (KeepDense 333-349,  *)
-(*                                    DropSparse 351-375, args 395-420)    *)
-(*   DoLabel     LabelRows.filter     rows.py 516-531 (LabelDense 435-468, *)
-(*                                    DropOne 314-331, LabelSparse 470-514)*)
+(*   DoHead      HeadRows.filter      rows.py 221-238 (HeadDense 179-193,  *)
+(*                                    HeadSparse 195-219)                  *)
+(*   DoEncode    EncodeRows.filter    rows.py 284-310 (EncodeDense 240-254,*)
+(*                                    EncodeSparse 256-282)                *)
+(*   DoDrop      DropRows.filter      rows.py 377-432 (KeepDense 331-347,  *)
+(*                                    DropSparse 349-375, args 394-416)    *)
+(*   DoLabel     LabelRows.filter     rows.py 516-531 (LabelDense 434-465, *)
+(*                                    DropOne 312-329, LabelSparse 467-514)*)
 (*   DoEncodeCat EncodeCatRows.filter rows.py 533-623                      *)
-(*   Init        ArffReader.filter    readers.py 277-317 (LazyDense 9-61,  *)
+(*   Init        ArffReader.filter    readers.py 274-317 (LazyDense 9-61,  *)
 (*                                    LazySparse 63-135) for the arff bases*)
 (*                                                                         *)
 (* After the stages (phase "access") a behaviour is a history of accesses  *)
@@ -40,11 +40,11 @@
 (* 1-based inside the operators.                                           *)
 (*                                                                         *)
 (* Sparse rows: an absent entry stands for the raw text "0" (that is what  *)
-(* sparse ARFF means and what EncodeRows assumes, rows.py 304-311 and      *)
-(* readers.py 309-314): encoding materialises an absent entry of column k  *)
+(* sparse ARFF means and what EncodeRows assumes, rows.py 303-309 and      *)
+(* readers.py 308-314): encoding materialises an absent entry of column k  *)
 (* exactly when enc_k("0") is not the number 0 (the "not sparse" columns). *)
 (* LabelRows makes the label column a defaulted column with default 0      *)
-(* (rows.py 477-501).                                                      *)
+(* (rows.py 475-501).                                                      *)
 (***************************************************************************)
 EXTENDS Integers, Sequences, FiniteSets, TLC, Json, SequencesExt
 
@@ -77,7 +77,7 @@ Enc(e, x) == CASE e = "id"  -> x
                [] e = "int" -> I(AsInt(x))
                [] e = "inc" -> I(AsInt(x) + 1)
                [] e = "str" -> IF x.t = "i" THEN S(ToString(x.v)) ELSE x
-(* rows.py 304-311: column k is "not sparse" iff enc_k('0') != 0 *)
+(* rows.py 305-309: column k is "not sparse" iff enc_k('0') != 0 *)
 HasDef(e) == Enc(e, S("0")) # I(0)
 Def(e)    == Enc(e, S("0"))
 
@@ -115,11 +115,11 @@ Base(b) == CASE b = "dense"  -> [kind |-> "dense",  src |-> "rows", rows |-> Den
              [] b = "arffd"  -> [kind |-> "dense",  src |-> "arff", rows |-> ArffDRaw,   attrs |-> Attrs]
              [] b = "arffs"  -> [kind |-> "sparse", src |-> "arff", rows |-> ArffSRaw,   attrs |-> Attrs]
 
-(* what ArffReader makes of one cell (readers.py 97-121; '?' -> None: rows.py 36-40, 57-61, 99-103) *)
+(* what ArffReader makes of one cell (readers.py 96-121; '?' -> None: rows.py 34-40, 55-61, 93-99) *)
 ArffEnc(a, raw, sparse) ==
   IF raw = "?" THEN NoneV ELSE
   CASE a.type = "num" -> F(StrInt[raw])
-    [] a.type = "nom" -> C(raw, IF sparse THEN <<"0">> \o a.levels ELSE a.levels)     \* readers.py 110-114: "0" is prepended
+    [] a.type = "nom" -> C(raw, IF sparse THEN <<"0">> \o a.levels ELSE a.levels)     \* readers.py 111-115: "0" is prepended
     [] a.type = "str" -> S(raw)
 ArffHasDef(a) == a.type \in {"nom","str"}                                               \* enc('0') != 0
 ArffDef(a)    == IF a.type = "nom" THEN C("0", <<"0">> \o a.levels) ELSE S("0")
@@ -158,7 +158,7 @@ Pos(t, ref) == IF ref.by = "idx" THEN ref.c + 1 ELSE IndexOf(t.hdr, ref.c)
 RefOK(t, ref) == IF ref.by = "idx" THEN ref.c + 1 \in 1..NCols(t) ELSE Has(t.hdr, ref.c)
 
 (* ------------------------------ row predicates (DropRows drop_row) ------------------------------ *)
-(* evaluated on the rows as they are BEFORE the columns are dropped (rows.py 425)                    *)
+(* evaluated on the rows as they are BEFORE the columns are dropped (rows.py 423)                    *)
 PredHolds(t, pred, r) ==
   CASE pred.a = "none"    -> FALSE
     [] pred.a = "missing" -> t.miss[r]                                        \* attrgetter('missing'), openml.py 106
@@ -235,9 +235,11 @@ NoPred  == [a |-> "none", c |-> 0, v |-> NoneV]
 HeadChoices(t) ==
   IF t.kind = "dense"
   THEN {[op |-> "head", form |-> f, names |-> SubSeq(HN, 1, NCols(t)), keys |-> <<>>] : f \in (IF Lite THEN {"seq","maprev"} ELSE {"seq","map","maprev"})}
-  ELSE LET ks == SetToSeq(AllKeys(t)) IN
-       {[op |-> "head", form |-> f, names |-> SubSeq(HN, 1, Len(ks)), keys |-> ks] : f \in {"map"}}
-   \* sparse: HeadRows({name: key}); the list form HeadRows([names]) is the map name_i -> i and is used when the keys are 0..n-1
+  ELSE LET ks == SetToSeq(AllKeys(t))      \* sparse: HeadRows({name: key}); the list form HeadRows([names]) is the map name_i -> i
+           n  == Len(ks)
+           ordered == [i \in 1..n |-> ToString(i - 1)]
+       IN {[op |-> "head", form |-> "map", names |-> SubSeq(HN, 1, n), keys |-> ks]}
+          \cup (IF AllKeys(t) = {ordered[i] : i \in 1..n} THEN {[op |-> "head", form |-> "seq", names |-> SubSeq(HN, 1, n), keys |-> ordered]} ELSE {})
 
 EncPat == <<"inc","id","str","int","inc","str","int","inc","id">>
 ColOK(t, p, e) == \A r \in DOMAIN t.rows : EncOK(e, t.rows[r][p])
@@ -255,7 +257,7 @@ EncodeChoices(t) ==
          THEN {[op |-> "encode", form |-> "map", asg |-> one(1, "str", t.hdr # <<>>) \o one(n, "inc", FALSE)]} ELSE {})
   ELSE
     LET ks == SetToSeq(AllKeys(t))
-        intkeys == \A k \in AllKeys(t) : k \in Digits
+        intkeys == AllKeys(t) # {} /\ \A k \in AllKeys(t) : k \in Digits      \* a sequence of encoders is dict(enumerate(seq)): integer keys
         full == [i \in 1..4 |-> [by |-> "key", c |-> ToString(i - 1), e |-> IF KeyOK(t, ToString(i - 1), EncPat[i]) THEN EncPat[i] ELSE "int"]]
         K1 == {k \in AllKeys(t) : KeyOK(t, k, "inc")}
     IN  (IF intkeys /\ \A i \in 1..4 : KeyOK(t, ToString(i - 1), full[i].e) THEN {[op |-> "encode", form |-> "seq", asg |-> full]} ELSE {})
@@ -396,7 +398,7 @@ HistAcc(t) ==
     \o (IF ~t.labeled THEN <<>> ELSE
           <<Acc("label", 0), Acc("feats", 0), Acc("labeled", 0), Acc("fkey", t.labk), Acc("flen", 0)>> \o (IF Lite THEN <<>> ELSE <<Acc("fkeys", 0), Acc("feq", "same"), Acc("fkey", k1)>>))
 
-(* which accesses read the row's data (a lazy ARFF row parses its line then: rows.py 19-24, 73-78) *)
+(* which accesses read the row's data (a lazy ARFF row parses its line then: rows.py 19-24, 74-79) *)
 Loads(acc) == acc.a \notin {"hdrs", "tipe"}
 
 (* ------------------------------ the state machine ------------------------------ *)
